@@ -29,7 +29,7 @@ type unsubscriptions []string
 func (s unsubscriptions) applyTo(d *subscriptions) {
 	l := len(*d)
 	for _, topic := range s {
-		for i, e := range *d {
+		for i, e := range (*d)[:l] {
 			if e.Topic == topic {
 				l--
 				(*d)[i] = (*d)[l]
